@@ -63,6 +63,8 @@ var ghost struct {
 	ioResAny int
 	ioFields int
 
+	ioSeq int // the sources of attributes collectArgs has consulted so far, as decimal digits in call order: 1 context, 2 logger chain, 3 call arguments (C07)
+
 	ioFmt int // content identity of the string the latest fmt.Sprintf call returned (C10 WithSkip)
 
 	split int // 1 once printFirstLineOfMsg has assigned PrintCtx.restLines / eol for the record being printed (C09)
@@ -248,14 +250,39 @@ func specInterrupts() bool {
 //@   props C02 C07
 //@   auto
 //@   requires !isnil(ctx)
+//@   requires [C07.in] kvps != nil
+//@   at call (*Entry).fromCtx assert [C07.order-ctx] callee.s == s && callee.kvps == kvps && callee.ctx == ctx
+//@   at call (*Entry).fromCtx effect ghost.ioSeq = ghost.ioSeq*10 + 1
+//@   at call (*Entry).walkParentAttrs assert [C07.order-logger] callee.e == s && callee.kvps == kvps
+//@   at call (*Entry).walkParentAttrs effect ghost.ioSeq = ghost.ioSeq*10 + 2
+//@   at call argsToAttrs assert [C07.order-args] callee.kvps == kvps && callee.args == args
+//@   at call argsToAttrs effect ghost.ioSeq = ghost.ioSeq*10 + 3
+//@   ensures [C07.order] ghost.ioSeq == 0 || ghost.ioSeq == 1 || ghost.ioSeq == 2 || ghost.ioSeq == 3 || ghost.ioSeq == 12 || ghost.ioSeq == 13 || ghost.ioSeq == 23 || ghost.ioSeq == 123
+//@   effect ghost.ioSeq = 0
+//@   ensures [C07.append] len(*kvps) >= old(len(*kvps)) && forall(j, 0, old(len(*kvps)), (*kvps)[j] == old((*kvps)[j]))
+//@   ensures [C07.own] implies((flags&LattrsR == 0) && len(args) == 0 && len(s.contextKeys) == 0, len(*kvps) == old(len(*kvps)) + len(s.attrs))
+//@   ensures [C07.inherit-bare] implies((flags&LattrsR != 0) && s.owner != nil, len(*kvps) >= old(len(*kvps)) + len(s.attrs) + len(s.owner.attrs))
 
 //@ func (*Entry).walkParentAttrs
 //@   props C02 C07
 //@   auto
+//@   keeps ghost.ioSeq
+//@   requires [C07.in] kvps != nil
+//@   ensures [C07.append] len(*kvps) >= old(len(*kvps)) && forall(j, 0, old(len(*kvps)), (*kvps)[j] == old((*kvps)[j]))
+//@   ensures [C07.own-last] implies(e != nil, len(*kvps) >= old(len(*kvps)) + len(e.attrs))
+//@   ensures [C07.only-own] implies(e != nil && (flags&LattrsR == 0), len(*kvps) == old(len(*kvps)) + len(e.attrs))
+//@   ensures [C07.ancestors] implies(e != nil && (flags&LattrsR != 0) && e.owner != nil, len(*kvps) >= old(len(*kvps)) + len(e.attrs) + len(e.owner.attrs))
+//@   at call (*Entry).walkParentAttrs assert [C07.outermost-first] (flags&LattrsR != 0) && callee.e == e.owner && callee.kvps == kvps && len(*kvps) == old(len(*kvps))
 
 //@ func argsToAttrs
 //@   props C02 C07 C15
 //@   auto
+//@   keeps ghost.ioSeq
+//@   ensures [C07.append] len(*kvps) >= old(len(*kvps)) && forall(j, 0, old(len(*kvps)), (*kvps)[j] == old((*kvps)[j]))
+//@   ensures [C07.noargs] implies(len(args) == 0, len(*kvps) == old(len(*kvps)))
+//@   loop 1 invariant len(*kvps) >= old(len(*kvps)) && forall(j, 0, old(len(*kvps)), (*kvps)[j] == old((*kvps)[j]))
+//@   loop 1 invariant implies(rangeindex == -1, len(*kvps) == old(len(*kvps)))
+//@   loop 2 invariant len(*kvps) >= old(len(*kvps)) && forall(j, 0, old(len(*kvps)), (*kvps)[j] == old((*kvps)[j]))
 //@   keeps gkvp.key, kvp.key, kvp.val
 
 //@ func (*Entry).logContext
@@ -2335,6 +2362,10 @@ func specTellable(m LogWriter) bool {
 //@   auto
 //@   ensures [C07.dedupe-len] implies(len(x) == 0, len(result) == 0) && implies(len(x) > 0, 1 <= len(result) && len(result) <= len(x) && samearray(result, x))
 //@   loop 1 invariant [C07.dedupe-idx] 1 <= i && i <= len(x) && 0 <= j && j < i
+//@   loop 1 invariant [C07.dedupe-rest] forall(k, i, len(x), x[k] == old(x[k]))
+//@   loop 1 invariant [C07.dedupe-last] forall(k, i-1, i, x[j] == old(x[k]))
+//@   loop 1 invariant [C07.dedupe-above] forall(k, j+1, len(x), x[k] == old(x[k]))
+//@   ensures [C07.dedupe-lastwins] implies(len(x) > 0, result[len(result)-1] == old(x[len(x)-1]))
 
 
 // in-package serializers reached through the ObjectSerializer interface (recursion with serializeAttrs)
@@ -2347,7 +2378,8 @@ func specTellable(m LogWriter) bool {
 //@   ensures [C09.ungrouped] !pc.inGroupedMode
 
 //@ func (*gkvp).SerializeValueTo
-//@   props C02 C09
+//@   props C02 C07 C09
+//@   at call serializeAttrs assert [C07.group-sorted] callee.pc == pc && callee.kvps == s.items
 //@   auto
 //@   nokeeps PrintCtx.prefix, PrintCtx.inGroupedMode
 //@   keeps PrintCtx.prefix except pc
@@ -2356,7 +2388,8 @@ func specTellable(m LogWriter) bool {
 //@   ensures [C09.prefix] same(pc.prefix, old(pc.prefix)) && !pc.inGroupedMode
 
 //@ func (Attrs).SerializeValueTo
-//@   props C02 C09
+//@   props C02 C07 C09
+//@   at call serializeAttrs assert [C07.group-sorted] callee.pc == pc && callee.kvps == s
 //@   auto
 //@   nokeeps PrintCtx.prefix, PrintCtx.inGroupedMode
 //@   keeps PrintCtx.prefix except pc
@@ -2368,6 +2401,12 @@ func specTellable(m LogWriter) bool {
 //@   props C02 C07
 //@   auto
 //@   requires !isnil(ctx)
+//@   keeps ghost.ioSeq
+//@   requires [C07.in] kvps != nil
+//@   ensures [C07.append] len(*kvps) >= old(len(*kvps)) && forall(j, 0, old(len(*kvps)), (*kvps)[j] == old((*kvps)[j]))
+//@   ensures [C07.nokeys] implies(len(s.contextKeys) == 0, len(*kvps) == old(len(*kvps)))
+//@   loop 1 invariant len(*kvps) >= old(len(*kvps)) && forall(j, 0, old(len(*kvps)), (*kvps)[j] == old((*kvps)[j]))
+//@   loop 1 invariant implies(rangeindex == -1, len(*kvps) == old(len(*kvps)))
 
 
 
@@ -2430,13 +2469,15 @@ func specTellable(m LogWriter) bool {
 //@   auto
 
 //@ func serializeAttrs
-//@   props C02 C09
+//@   props C02 C07 C09
 //@   auto
 //@   nokeeps PrintCtx.prefix, PrintCtx.inGroupedMode
 //@   keeps PrintCtx.prefix except pc
 //@   keeps PrintCtx.inGroupedMode except pc
 //@   requires [C09.ungrouped] !pc.inGroupedMode
 //@   ensures [C09.prefix] same(pc.prefix, old(pc.prefix)) && !pc.inGroupedMode
+//@   at call slices.SortStableFunc[github.com/hedzr/logg/slog.Attrs github.com/hedzr/logg/slog.Attr] assert [C07.sorted] callee.x == kvps
+//@   at call github.com/hedzr/logg/slog.dedupeSlice[github.com/hedzr/logg/slog.Attrs github.com/hedzr/logg/slog.Attr] assert [C07.unique] callee.x == kvps
 //@   loop 1 invariant [C09.restore] same(pc.prefix, prefix) && !pc.inGroupedMode && same(prefix, old(pc.prefix))
 
 //@ func (colorizeToolS).echoColorAndBg
